@@ -62,11 +62,13 @@ type Finding struct {
 	SubIdx  int    `json:"sub_idx"`
 	Index   int    `json:"index"`
 	Seq     int64  `json:"seq"`
+	Shard   int    `json:"shard"`
 	Witness W      `json:"witness"`
 }
 
 // Rec records what a worker covered.
 type Rec struct {
+	Shard    int
 	Tier     string
 	sub      *Sub
 	subIdx   int
@@ -165,7 +167,7 @@ func (r *Rec) Fail(key string, w W) {
 	}
 	f := r.Findings[key]
 	if f == nil {
-		f = &Finding{Key: key, Sub: r.sub.Name, SubIdx: r.subIdx, Index: r.index, Seq: r.seq, Witness: w}
+		f = &Finding{Key: key, Sub: r.sub.Name, SubIdx: r.subIdx, Index: r.index, Seq: r.seq, Shard: r.Shard, Witness: w}
 		r.Findings[key] = f
 	}
 	f.Count++
